@@ -62,6 +62,13 @@ def obligations(tier, seed):
     obs.append(Ob(id='C03.static.prime-above-2-63-in-signed-rep', prop='C03', group='C03.static', prelude='', wrappers=[], inputs=[], body=BP, kind='S',
                   contract='static facts: mag<2^64-59>() is not representable in any signed rep (and is in uint64_t): the factor of a conversion is never a wrapped prime',
                   functions_under_contract=('au::representable_in / get_value (compile-time)',)))
+    # ---- negative compile probes: programs the property says are REJECTED must be rejected by the library's own guard (supporting static facts, decided by the compilers)
+    NHDR = '#include "au/au.hh"\n#include "au/units/feet.hh"\n#include "au/units/inches.hh"\n#include "au/units/meters.hh"\n#include "au/units/seconds.hh"\n#include "au/units/hertz.hh"\n#include "au/units/percent.hh"\n#include "au/units/celsius.hh"\n#include "au/units/kelvins.hh"\nusing namespace au;\n'
+    for (nm_, expr_, rx_) in [('unit-only-in-unsafe-int', 'meters(1).in(kilo(meters))', 'Dangerous conversion'), ('unit-only-as-overflow-risk', 'meters(int16_t{1}).as(milli(meters))', 'Dangerous conversion')]:
+        obs.append(Ob(id='C03.static.rejects.' + nm_, prop='C03', group='C03.static', prelude='', wrappers=[], inputs=[], kind='S',
+                      body=NHDR + 'int main() { auto vf_x = ' + expr_ + '; (void)vf_x; }\n', dfcc=dict(expect='reject', match=rx_),
+                      contract='must not compile: `' + expr_ + '` (unit-only .in/.as of an integral rep is refused when the policy does not permit the conversion; diagnostic /' + rx_ + '/)',
+                      functions_under_contract=('compile-time guard',)))
     return obs
 
 
